@@ -151,15 +151,7 @@ func unframe(buf []byte) (msgs [][]byte, rest []byte) {
 	return msgs, nil
 }
 
-func drain(r *simnet.RemoteEnd) []byte {
-	var out []byte
-	for r.Pending() > 0 {
-		b := make([]byte, r.Pending())
-		n, _ := r.Read(b)
-		out = append(out, b[:n]...)
-	}
-	return out
-}
+func drain(r *simnet.RemoteEnd) []byte { return r.TakeAll() }
 
 func kv(fields []string) map[string]string {
 	m := map[string]string{}
